@@ -63,7 +63,8 @@ where
     /// Extractor for [`Value::Array`] which applies `f` to each item to build a new [`Vec`]
     fn try_as_array_then_convert<F, T>(self, f: F) -> Result<Vec<T>>
     where
-        F: Fn(Value) -> Result<T>;
+        F: Fn(Value) -> Result<T>«,
+        requires forall |v: Value| call_requires(f, (v,))»;
 
     /// Extractor for [`Value::Map`]
     fn try_as_map(self) -> Result<Vec<(Self, Self)>>;
@@ -113,11 +114,19 @@ impl ValueTryAs for Value {
         } else {
             cbor_type_error(&self, "array")
         }
-    }
+    }«// A-HOF: iterator adapters (`map`, `collect::<Result<Vec<_>,_>>`) are outside Verus' reach; the contract below is
+    // the std-documented meaning (element-wise, in order, first error wins) and is ASSUMED.
+    #[verifier::external_body]»
 
-    fn try_as_array_then_convert<F, T>(self, f: F) -> Result<Vec<T>>
+    fn try_as_array_then_convert<F, T>(self, f: F) ->« (r:» Result<Vec<T>>«)»
     where
-        F: Fn(Value) -> Result<T>,
+        F: Fn(Value) -> Result<T>,«
+        ensures
+            !(self is Array) ==> (r matches Err(e) && e is UnexpectedItem),
+            self matches Value::Array(a) ==> match r {
+                Ok(out) => out@.len() == a@.len() && forall |i: int| 0 <= i < a@.len() ==> call_ensures(f, (#[trigger] a@[i],), Ok::<T, CoseError>(out@[i])),
+                Err(e) => exists |i: int| 0 <= i < a@.len() && call_ensures(f, (#[trigger] a@[i],), Err::<T, CoseError>(e)),
+            },»
     {
         self.try_as_array()?
             .into_iter()
